@@ -1,5 +1,5 @@
 # Table of checks (exec'd by vcheck).  check(id, source, flavour, lib, workers=(quick,thorough), wall=(quick,thorough) seconds)
-check("C08", "harness/c08_rbtree.cxx", lib=False, workers=(8, 16), wall=(20, 300),
+check("C08", "harness/c08_rbtree.cxx", lib=False, opt="-O1", workers=(8, 16), wall=(20, 300),
       title="ordered-set utility stays a valid balanced search tree")
 check("C01", "harness/c01_types.cxx", workers=(8, 16), wall=(20, 600),
       title="types are unified")
@@ -7,11 +7,11 @@ check("C04", "harness/c04_names.cxx", workers=(8, 16), wall=(20, 600),
       title="names and atoms are unified; single Identifier per spelling")
 check("C11", "harness/c11_qualified.cxx", workers=(8, 16), wall=(10, 120),
       title="qualified types are in normal form")
-check("C10", "harness/c10_specifiers.cxx", workers=(8, 16), wall=(15, 180),
+check("C10", "harness/c10_specifiers.cxx", opt="-O1", workers=(8, 16), wall=(15, 180),
       title="specifier and qualifier sets are a Boolean algebra with exact decomposition")
 check("C13", "harness/c13_constants.cxx", workers=(2, 4), wall=(5, 30),
       title="Lexicon constants are distinct, correctly spelled, self-describing, process-wide")
-check("C03", "harness/c03_words.cxx", workers=(8, 16), wall=(20, 600),
+check("C03", "harness/c03_words.cxx", opt="-O1", workers=(8, 16), wall=(20, 600),
       title="words are interned; content preserved")
 check("C07", "harness/c07_scopes.cxx", workers=(8, 16), wall=(20, 600),
       title="scopes, overload sets and declaration sets are mutually consistent")
@@ -23,3 +23,7 @@ check("C09", "harness/c09_types.cxx", workers=(8, 16), wall=(20, 400),
       title="every node has the type its kind prescribes")
 check("C06", "harness/c06_categories.cxx", workers=(2, 8), wall=(10, 120),
       title="category code, accept() and visitor defaults agree")
+check("C15", "harness/c15_derived.cxx", workers=(4, 16), wall=(10, 200),
+      title="derived interface operations agree with the primitives they are defined from")
+check("C12", "harness/c12_regions.cxx", workers=(8, 16), wall=(15, 300),
+      title="regions form a tree rooted at the global region; owners and positions are right")
